@@ -352,7 +352,8 @@ def run_refusals(ctx, shard):
     import cooler
 
     rng = ctx.rng("refuse")
-    kinds = ["binsize", "chromsizes", "variable-bins", "storage-mode", "chrom-names", "fixed-vs-variable"]
+    kinds = ["binsize", "chromsizes", "variable-bins", "storage-mode", "chrom-names", "fixed-vs-variable",
+             "variable-bins:names-only", "fixed-bins:names-swapped"]
     for i in range(shard["cases"]):
         kind = kinds[i % len(kinds)]
         cid = f"refuse:{i}"
@@ -373,6 +374,15 @@ def run_refusals(ctx, shard):
         elif kind == "variable-bins":
             btA = [["chr1", [0, 3, 4, 9, 11]], ["chr2", [0, 5, 7]]]
             btB = [["chr1", [0, 3, 5, 9, 11]], ["chr2", [0, 5, 7]]]     # same lengths, same bin count
+        elif kind == "variable-bins:names-only":
+            # variable-width tables with the same layout (ids, starts, ends) whose chromosomes are NAMED differently
+            e1 = [0, 3, 4, 9, 11] if rng.random() < 0.5 else [0, 2, 7]
+            btA = [["chrA", e1], ["chrB", list(e1)]]
+            btB = [["chrB", e1], ["chrA", list(e1)]] if rng.random() < 0.5 else [["chrA", e1], ["chrZ", list(e1)]]
+        elif kind == "fixed-bins:names-swapped":
+            eq = gen.fixed_edges(nb * b, b)
+            btA = [["chr1", eq], ["chr2", list(eq)]]
+            btB = [["chr2", eq], ["chr1", list(eq)]]
         elif kind == "storage-mode":
             btB = btA
             symB = False
